@@ -293,6 +293,9 @@ impl Run {
 
 /// Run `f` with panics caught and the default panic message suppressed.
 pub fn quiet_catch<T>(f: impl FnOnce() -> T + std::panic::UnwindSafe) -> Result<T, String> {
+    // every guarded library call is also a watchdog case; if an enclosing case is already in flight on this
+    // thread that one keeps the slot (and its more informative label)
+    let _w = crate::watch::enter_with(|| "a library call made outside any labelled case (building, formatting, hashing or comparing a value of the universe)".to_string());
     match std::panic::catch_unwind(f) {
         Ok(v) => Ok(v),
         Err(e) => Err(if let Some(s) = e.downcast_ref::<&str>() {
